@@ -28,7 +28,8 @@ META = {
              "(C13Bls_merge_spec), SparseIndices = the maximal set nodes, each once, a disjoint cover of the bit set "
              "(C13Bls_sparse_indices_maximal/_cover), positive sparse round trip for n <= 32768 with the same ids afterwards "
              "(C13Bls_sparse_roundtrip/_ids); reachable proofs are closed and their sparse form is canonical (a function of the bit set). "
-             "Partial for the tree: model_satisfies_monitor is evaluated on every generated case, not proved in general. "
+             "model_satisfies_monitor is a theorem for all operation sequences over key sets of at most 32768 keys "
+             "(C13Bls_model_satisfies_monitor; the guard is shown necessary). "
              "Full for BLS finalized proofs (Properties/C13BlsFinal.v): for every n <= 65535, every non-empty main signer set and every list "
              "of rest blocks of any sizes and order with distinct sign contents, pairwise disjoint blocks round-trip through Finalize + "
              "ValidateFinalizedProof to exactly their signer sets with allSignaturesUnique = true (list and bit-mask form); Finalize is "
